@@ -76,7 +76,7 @@ func deviations(r *rand.Rand, ver version.Version) []deviation {
 		w := w
 		add(w.n, func(sc *scenario) { sc.sp.date, sc.sp.expires, sc.absT, sc.hasAbsT = w.date, w.exp, w.t, true }, nil)
 	}
-	for _, l := range []int64{604799, 604800, 604801, 1} {
+	for _, l := range []int64{604799, 604800, 604801, 1, 0} {
 		l := l
 		add("lifetime="+itoa(int(l)), func(sc *scenario) { sc.sp.expires = sc.sp.date + l }, nil)
 	}
@@ -155,6 +155,9 @@ func deviations(r *rand.Rand, ver version.Version) []deviation {
 		add(v.n, func(sc *scenario) { sc.sp.vURL = v.u }, nil)
 	}
 	add("no content-type", func(sc *scenario) { sc.sp.resph.Del("Content-Type") }, nil)
+	add("empty payload", func(sc *scenario) { sc.sp.payload = nil }, nil)
+	add("no content-type, empty payload", func(sc *scenario) { sc.sp.resph.Del("Content-Type"); sc.sp.payload = nil }, nil)
+	add("no content-type, empty payload, 204", func(sc *scenario) { sc.sp.resph.Del("Content-Type"); sc.sp.payload = nil; sc.sp.status = 204 }, nil)
 	// the integrity parameter is not signed: an exchange protected CONSISTENTLY with the other drafts' scheme and naming that
 	// scheme in its integrity parameter is still not an exchange of this version
 	swapIntegrity := func(e *sxg.Exchange) {
